@@ -200,7 +200,7 @@ def main():
     members = {}
     for c, r in items:
         hist[c["tag"]] = hist.get(c["tag"], 0) + 1
-        k = c["tag"].split("_")[0] + ":" + r["class"]
+        k = c["tag"].split("_")[0].rstrip("0123456789") + ":" + r["class"]
         classes[k] = classes.get(k, 0) + 1
         h = case_hash(c["text"])
         hashes.add(h)
